@@ -4,7 +4,8 @@ from ..translate import go_translator
 SPEC = Spec(
     pid="C11",
     lean_modules=["OtelVerif.Props.C11"],
-    translators=[go_translator("statustable", "OtelVerif/Gen/StatusTable.lean")],
+    translators=[go_translator("statustable", "OtelVerif/Gen/StatusTable.lean"),
+                 go_translator("statusglue", "OtelVerif/Gen/StatusGlue.lean")],
     harnesses=[
         Harness(name="reporter", module="service", pkg="service/internal/status",
                 files={"zz_verif_c11_reporter_test.go": "c11/reporter_test.go"},
@@ -14,19 +15,47 @@ SPEC = Spec(
                 test="TestVerifC11Shared", driver="drv_c11", n={"quick": 3000, "thorough": 30000},
                 mod_append=["require go.opentelemetry.io/collector/internal/sharedcomponent v0.124.0",
                             "replace go.opentelemetry.io/collector/internal/sharedcomponent => $REPO/internal/sharedcomponent"]),
-        Harness(name="graph", module="service", pkg="service/internal/graph",
-                files={"zz_verif_c11_graph_test.go": "c11/graph_test.go"},
-                test="TestVerifC11Graph", driver="drv_c11", n={"quick": 800, "thorough": 10000}),
-        Harness(name="service", module="service", pkg="service",
-                files={"zz_verif_c11_service_test.go": "c11/service_test.go"},
-                test="TestVerifC11Service", driver="drv_c11", n={"quick": 800, "thorough": 8000},
+        Harness(name="sc", module="service", pkg="service/internal/status",
+                files={"zz_verif_c11_sc_test.go": "c11/sc_test.go"},
+                test="TestVerifC11SC", driver="drv_c11", n={"quick": 2000, "thorough": 40000},
                 mod_append=["require go.opentelemetry.io/collector/internal/sharedcomponent v0.124.0",
                             "replace go.opentelemetry.io/collector/internal/sharedcomponent => $REPO/internal/sharedcomponent"]),
+        Harness(name="graph", module="service", pkg="service/internal/graph",
+                files={"zz_verif_c11_graph_test.go": "c11/graph_test.go"},
+                test="TestVerifC11Graph", driver="drv_c11", n={"quick": 800, "thorough": 20000}),
+        Harness(name="service", module="service", pkg="service",
+                files={"zz_verif_c11_service_test.go": "c11/service_test.go"},
+                test="TestVerifC11Service", driver="drv_c11", n={"quick": 800, "thorough": 16000},
+                mod_append=["require go.opentelemetry.io/collector/internal/sharedcomponent v0.124.0",
+                            "replace go.opentelemetry.io/collector/internal/sharedcomponent => $REPO/internal/sharedcomponent"]),
+        Harness(name="sysservice", module="service", pkg="service",
+                files={"zz_verif_c11_sysservice_test.go": "c11/sysservice_test.go"},
+                test="TestVerifC11SysService", driver="drv_c11", n={"quick": 600, "thorough": 30000},
+                mod_append=["require go.opentelemetry.io/collector/internal/sharedcomponent v0.124.0",
+                            "replace go.opentelemetry.io/collector/internal/sharedcomponent => $REPO/internal/sharedcomponent"]),
+        Harness(name="instance", module="component/componentstatus", pkg="component/componentstatus",
+                files={"zz_verif_c11_instance_test.go": "c11/instance_test.go"},
+                test="TestVerifC11Instance", driver="drv_c11", n={"quick": 2000, "thorough": 30000},
+                mod_append=["require go.opentelemetry.io/collector/pipeline/xpipeline v0.124.0",
+                            "replace go.opentelemetry.io/collector/pipeline/xpipeline => $REPO/pipeline/xpipeline"]),
         Harness(name="extensions", module="service", pkg="service/extensions",
                 files={"zz_verif_c11_ext_test.go": "c11/extensions_test.go"},
                 test="TestVerifC11Extensions", driver="drv_c11", n={"quick": 500, "thorough": 5000}),
     ],
-    rule="service: the real service.New/Start/Shutdown with a status-watcher extension (the property's observation point), scripted "
+    rule="sysservice: the real service.New/Start/Shutdown observed at a watcher extension, against the code-shaped glue model Sys "
+         "(Model/C11Sys.lean: the graph/extensions/service loops INTERPRETED from the regenerated skeletons of Gen/StatusGlue.lean + "
+         "sharedcomponent.Component Start/Shutdown with once-semantics): 1-5 pipelines over all four signals (logs, metrics, traces, "
+         "profiles, optionally a second logs pipeline fed by a connector), plain receivers/processors/exporters/connector incl. instances "
+         "listed by several pipelines, a receiver shared by 1-4 signals and an exporter shared by 1-4 signals through the real "
+         "sharedcomponent, 1-4 extensions (watcher, scripted ones that try to report through the bare host, one backed by a shared "
+         "component: the not-a-Reporter host branch) failing Start/Shutdown at random; inputs of the model = the scripts and the ORDER "
+         "of the implementation's Start/Shutdown calls; who is reached, where start-up aborts and every instance's events are computed "
+         "by the model and compared exactly, instance by instance; direct oracles: docPathB per instance, all instances of a shared "
+         "component shown the same events before Stopping (ring overflow classified model-relative), automatic OK only from Starting, "
+         "events only for configured instance ids (kind/name/pipelines). instance: NewInstanceID/WithPipelines/AllPipelineIDs against "
+         "the model IID over a pool of 32 pipeline ids (all signals, with/without names), duplicates, empty calls, receiver not "
+         "modified, early stop, equality of ids built from the same set in another order/grouping. "
+         "service: the real service.New/Start/Shutdown with a status-watcher extension (the property's observation point), scripted "
          "components (receiver and exporter optionally listed by TWO pipelines: instance ids with several pipeline ids) and a receiver "
          "shared across two signals through the real sharedcomponent whose single Start may fail; non-shared instances compared exactly "
          "with Life.events, the two shared instances exactly with SharedLife.eventsX/eventsY, all instances monitored by docPathB; every "
@@ -43,15 +72,25 @@ SPEC = Spec(
          "attach while reporting (a late instance must not miss a report); non-trivial = at least two instances attached. distinct = distinct op sequences (sha1 of the op lines).",
     trusted_base=[
         "Lean 4.33.0 kernel; axioms per theorem listed under axioms_per_theorem (subset of propext, Classical.choice, Quot.sound)",
-        "translator translators/cmd/statustable (go/ast): extracts the transitions map literal of newFSM, the Status iota order, ring.New(n); checks the statement shape of fsm.transition",
+        "translator translators/cmd/statustable (go/ast): extracts the transitions map literal of newFSM, the Status iota order, ring.New(n); checks the statement shape of fsm.transition; "
+        "reporterLocked (both reporter methods begin with r.mu.Lock(); defer r.mu.Unlock(), no other (un)lock call, no go statement) and callbackSync (onTransition / onStatusChange called as plain statements)",
+        "translator translators/cmd/statusglue (go/ast): status-report skeleton of graph.StartAll/ShutdownAll and extensions.Start/Shutdown (reports before the call, error branch and whether it "
+        "returns or continues, reports after, whether the component gets &HostWrapper{InstanceID} or the bare host, backwards walk), layer order of service.Start/Shutdown, statement order and "
+        "reported statuses of the sharedcomponent once bodies, statement shape of hostWrapper.Report/addSource (wrapperLocked as data) and graph.HostWrapper.Report; exit 2 on any other shape",
+        "sub-step model of the reporter critical section (Model/C11Mutex.lean: Lock / read / write / callback / Unlock): hand-written from status.go; that the mutex is a mutex (sync.Mutex semantics: "
+        "Lock blocks while held) is the trusted Go-runtime fact; which statements are inside the section is regenerated",
+        "the ORDER in which StartAll/ShutdownAll/extensions visit the instances (topological sort, receivers last, exporters last, extension dependency order) is an INPUT of the Sys model, observed from the implementation",
         "hand-written model of reporter.ReportStatus / ReportOKIfStarting / hostWrapper.Report / addSource, tied by exact differential on every run",
-        "atomicity of a report under reporter.mu is assumed (modelled as sequential composition): no sub-step LTS of lock / read / "
-        "write / callback; under concurrent goroutines the assumption is CHECKED per case by the interleaving search (a search in the "
-        "driver, not a theorem: exhaustive, so it cannot raise a false alarm; a wrong 'explained' would only miss a detection)",
+        "atomicity of a report is no longer assumed: C11_mutex_atomic proves it for the sub-step LTS under the lock (any goroutines, programs, schedules); in addition, under real concurrent "
+        "goroutines every concurrent reporter case is checked by the exhaustive interleaving search in the driver (a search, not a theorem)",
+        "hostWrapper.Report/addSource atomic w.r.t. each other: no longer assumed - C11_wlock_atomic proves it for the sub-step LTS of Model/C11WLock.lean (Lock, ring update / loop start, one "
+        "sub-step per delivery, append, Unlock) under h.lock, whose shape is regenerated (StatusGlue.wrapperLocked); the race modes of shared_test.go exercise it on real goroutines",
         "docs/component-status.md figure transcribed by hand as figureTable",
     ],
     assumptions=[
-        "a report is atomic (one mutex); every concurrent history is therefore some sequence of reports",
+        "sync.Mutex excludes: while one goroutine is between Lock() and the deferred Unlock no other goroutine passes Lock - for reporter.mu (from this C11_mutex_atomic derives that every concurrent history is "
+        "a sequence of atomic reports) and for hostWrapper.lock (C11_wlock_atomic)",
+        "a plain component reports only through the host it was given in Start (the scripted harness components do; a component that kept another instance's host would report under that id)",
         "the graph reports StatusStarting for an instance before starting it (graph.go StartAll), so a late source replays the ring from Starting",
     ],
 )
